@@ -60,6 +60,8 @@ class Bench:
     def _probe(self, ctx, host):
         d = self.dut
         # rx side (device -> FPGA logic)
+        if self.rx_timed and host.cycle_no >= self.rx_timed[0][0]:
+            self.rx_budget = self.rx_timed.pop(0)[1]
         if self.rx_budget is not None:
             r = 1 if self.rx_budget > 0 else 0
         else:
@@ -205,7 +207,7 @@ class Bench:
         self.rx_budget = 0 if sc.get("rx_manual") else None
         self.tx_force = False
         self.tx_queue, self.tx_acc, self.rx_acc, self.trace = [], [], [], []
-        self.timed, self.tx_force_n = [], 0
+        self.timed, self.tx_force_n, self.rx_timed = [], 0, []
         self.held, self.exp_tog = 0, 0      # harness-side estimate, used only to keep clean stimuli inside the buffer
         ctx.set(self.dut.connect, 1)
         ctx.set(self.bus.line_state, 1)
@@ -266,6 +268,22 @@ class Bench:
                         await host.handshake(ctx, "ACK")
                 await host.idle(ctx, 24)
                 self._flush({"e": "in", "addr": addr, "resp": resp, "host_ack": bool(ack and resp["kind"] == "data")})
+            elif k == "out_race":    # OUT transaction with the consumer stalled; it opens exactly d cycles after the data packet ended
+                _, tog, payload, dly = op
+                self.rx_budget = 0
+                self.rx_timed = []
+                await host.token(ctx, "OUT", addr, 4)
+                await host.idle(ctx, 2)
+                await host.data(ctx, "DATA1" if tog else "DATA0", payload)
+                self.rx_timed.append((host.cycle_no + dly, 10 ** 6))
+                r = await host.wait_response(ctx, 40)
+                resp = r["pid"] if r.get("kind") == "hs" else ("none" if r.get("kind") == "none" else "bad_" + str(r.get("kind")))
+                if resp == "ACK" and tog == self.exp_tog:
+                    self.held += len(payload)
+                    self.exp_tog ^= 1
+                await host.idle(ctx, 30)
+                self._flush({"e": "out", "addr": addr, "tog": tog, "payload": list(payload), "crc_ok": True, "resp": resp})
+                self.rx_budget = None
             elif k == "tx":          # queue beats for the tx stream; optionally wait until they are taken
                 self.tx_queue += [list(b) for b in op[1]]
                 if op[2]:
@@ -551,6 +569,30 @@ def check_C57(rep):
                 tr = bench.run(sc)
                 items[maxpkt].append((tr, {"maxpkt": maxpkt, "buf": 2 * maxpkt - 1,
                                            "origin": "race-sweep/%s/ack=%s" % (shape, ack), "n": 0}))
+
+    # 3c. OUT-side sweeps: the rx consumer (stalled, with one packet already buffered) opens at every cycle offset
+    #     around the end of the next OUT data packet / its handshake
+    for maxpkt in ((2, 8) if quick else (2, 8, 64)):
+        bench = benches[maxpkt]
+        for plen in sorted({maxpkt - 1, 1}):
+            ops = [("rx_p", 0.0)]
+            tog = 0
+            val = 3
+            for dly in range(0, 15):
+                ops.append(("rx", 0))
+                ops.append(("out_race", tog, [(val + j) % 256 for j in range(plen)], 200))     # buffered, consumer shut
+                tog ^= 1
+                val += 5
+                ops.append(("out_race", tog, [(val + j) % 256 for j in range(plen)], dly))     # consumer opens at offset dly
+                tog ^= 1
+                val += 5
+                ops.append(("idle", 60))
+                ops.append(("rx", 4 * maxpkt))                                                  # drain before the next round
+            sc = {"rng": random.Random("%s-orace-%d-%d" % (rep.seed, maxpkt, plen)), "ops": ops,
+                  "gap": 0.0, "stall": 0.0, "rx_p": 1.0, "tx_p": 1.0, "avoid_overrun": False}
+            tr = bench.run(sc)
+            items[maxpkt].append((tr, {"maxpkt": maxpkt, "buf": 2 * maxpkt - 1,
+                                       "origin": "out-race-sweep/len=%d" % plen, "n": 0}))
 
     # 4. TLC decides
     for maxpkt, its in items.items():
